@@ -7,7 +7,7 @@
 (* Same enumeration and sampling as MC_Families (env FAM_<name>, STRIDE,   *)
 (* SEED); nothing is printed.                                              *)
 (***************************************************************************)
-EXTENDS Families, SanImpl, IOUtils, TLC
+EXTENDS Families, SanImpl, Json, IOUtils, TLC
 
 Stride == IF "STRIDE" \in DOMAIN IOEnv THEN atoi(IOEnv.STRIDE) ELSE 1
 Seed == IF "SEED" \in DOMAIN IOEnv THEN atoi(IOEnv.SEED) ELSE 1
@@ -20,7 +20,16 @@ HashFrom(y, i) == IF i > Len(y) THEN 0 ELSE ((y[i] + 3) * Primes[i] + HashFrom(y
 Keep(y) == Stride = 1 \/ (HashFrom(y, 1) + Seed) % Stride = 0
 
 VARIABLES stage, fam, cx, out
-Init == stage = 0 /\ fam = "" /\ cx = <<>> /\ out = <<>>
+\* env CORPUS=1: the curated corpus (ordinary middlegame positions: plain pawn captures, castlings, checks) instead
+Corpus == JsonDeserialize("data/corpus.json")
+PosOfJson(j) == [cells |-> [s \in Sq |-> j.cells[s + 1]], side |-> j.side,
+                 castling |-> j.castling, ep |-> j.ep, hm |-> j.hm, fm |-> j.fm]
+UseCorpus == "CORPUS" \in DOMAIN IOEnv
+CFirst == IF "FIRST" \in DOMAIN IOEnv THEN atoi(IOEnv.FIRST) ELSE 1
+CLast == IF "LAST" \in DOMAIN IOEnv THEN atoi(IOEnv.LAST) ELSE Len(Corpus)
+Init == IF UseCorpus
+        THEN stage = 2 /\ fam = "corpus" /\ cx = <<>> /\ \E i \in CFirst..CLast : out = PosOfJson(Corpus[i].pos)
+        ELSE stage = 0 /\ fam = "" /\ cx = <<>> /\ out = <<>>
 PickCoarse == /\ stage = 0
               /\ \E f \in Fams : \E x \in Coarse(f) : fam' = f /\ cx' = x /\ stage' = 1 /\ out' = <<>>
 PickFine == /\ stage = 1
@@ -34,4 +43,5 @@ Inv_SanRefines ==
     /\ Obl_SanWrite(b, EpFix)
     /\ Obl_SanRoundTrip(b, EpFix)
     /\ Obl_SanRead(b, EpFix)
+Inv_UciRefines == stage = 2 => Obl_Uci(Scratch(out), EpFix)
 =============================================================================
